@@ -25,7 +25,7 @@ func defaultBudget(h string, tier int) budget {
 	b := budget{Budgets: interp.Budgets{MaxSteps: 3_000_000, MaxDepth: 300, MaxDecisions: 5000}, SolverTimeoutMs: 10000, WallS: 170}
 	if tier == 1 {
 		b.SolverTimeoutMs = 60000
-		b.WallS = 1500
+		b.WallS = 2700
 		b.MaxSteps = 20_000_000
 	}
 	return b
